@@ -296,4 +296,8 @@ def run(F, rep):
     if n_b < 1:
         raise AnalysisBroken('C04.B1: the confirmed by-name membership test (linkComponentVariableUnits) vanished; the matcher no longer works')
 
+    # ------------------------------------------------------------------ loop-carried locals
+    from engines import rule_loop_state
+    rule_loop_state(F, rep, 'C04.L1', lambda g: g.file.endswith('/validator.cpp'), 'validator.cpp')
+
 
